@@ -25,7 +25,8 @@ theorem C09_init (E : Ext) (cfg : Cfg) (p : Props) (hc : consistent p = true) :
   init_ok E cfg hc
 
 /-- **Invariant.**  From a conforming state, after any sequence of `set_value` /
-    `client_update_value` / `override_properties` operations with arbitrary arguments (every
+    `client_update_value` / `override_properties` / `Service.configure_char` operations (each
+    on its own instance: instances share nothing) with arbitrary arguments (every
     property set along the way being consistent), the stored value conforms to the property set
     then in force, and every notified value and every setter-callback argument conformed to the
     property set in force when it was emitted. -/
@@ -54,21 +55,30 @@ theorem C09_reject_write (E : Ext) (L : Variant) (cfg : Cfg) (st : St) (v : Val)
       (clientUpdate E L cfg st v).st = st ∧ (clientUpdate E L cfg st v).out = []) :=
   ⟨setValue_reject, clientUpdate_reject⟩
 
-/-- **Rejected operations, overrides included.**  Any operation that raises leaves the stored
-    value *and* the property set unchanged and emits nothing (for an override: it can only be
-    refused before anything is modified). -/
+/-- **Rejected operations, overrides included.**  Any `set_value` / `client_update_value` /
+    `override_properties` that raises leaves the stored value *and* the property set unchanged
+    and emits nothing (for an override: it can only be refused before anything is modified). -/
 theorem C09_reject (E : Ext) (hE : StepExnOk E) (cfg : Cfg) (st : St) (op : Op) (e : Exn)
+    (hop : ∀ u vv v, op ≠ .configure u vv v)
     (hc' : consistent (step E repaired cfg st op).st.props = true)
     (h : (step E repaired cfg st op).exn = some e) :
     (step E repaired cfg st op).st = st ∧ (step E repaired cfg st op).out = [] :=
-  step_reject hE op hc' h
+  step_reject hE op hop hc' h
+
+/-- **`configure_char`.**  It never emits; when it raises, the state is the one its override
+    part left (untouched if that part was refused or absent, otherwise new properties with the
+    re-validated value: the rejected `set_value` changed nothing) — and by `C09_inv` that state
+    conforms. -/
+theorem C09_configure (E : Ext) (L : Variant) (cfg : Cfg) (st : St) (u : Upd) (vv : List Int) (v : Val) :
+    (configure E L cfg st u vv v).out = [] ∧
+    ∀ e, (configure E L cfg st u vv v).exn = some e →
+      (configure E L cfg st u vv v).st = (configurePre E L cfg st u vv).st :=
+  ⟨configure_out E L cfg st u vv v, fun _ h => configure_reject_state h⟩
 
 /-- Every operation emits only while it succeeds, and an override never emits. -/
 theorem C09_override_silent (E : Ext) (L : Variant) (cfg : Cfg) (st : St) (u : Upd) (vv : List Int) :
-    (override E L cfg st u vv).out = [] := by
-  rcases override_props_cases E L cfg st u vv with h | ⟨_, h⟩
-  · rw [h]
-  · exact h
+    (override E L cfg st u vv).out = [] :=
+  override_out E L cfg st u vv
 
 /-- The always-null type: the stored (and therefore reported) value is `null` after every
     operation, whatever its outcome. -/
@@ -176,6 +186,18 @@ example :
   decide +kernel
 example : (step idExt repaired {} ⟨demoProps, .int 7⟩ (.client (.str ['a']))).exn = some .valueError := by
   decide
+-- configure_char(properties={min 10, max 60}, value=0) on a stored 80: the falsy value is not
+-- set, the override part has already brought 80 down to 60
+example :
+    let r := step idExt repaired {} ⟨demoProps, .int 80⟩
+      (.configure { minV := some (.int 10), maxV := some (.int 60) } [] (.int 0))
+    r.exn = none ∧ r.st.value = .int 60 ∧ consistent r.st.props = true := by
+  decide +kernel
+-- configure_char(valid_values={1,2}, value=7): set_value raises after the override part
+example :
+    let r := step idExt repaired {} ⟨{ fmt := .uint8, vv := [0, 1, 3] }, .int 0⟩ (.configure {} [1, 2] (.int 7))
+    r.exn = some .valueError ∧ r.st = ⟨{ fmt := .uint8, vv := [1, 2] }, .int 1⟩ := by
+  decide +kernel
 example : conf {} demoProps (.int 101) = false ∧ conf {} demoProps (.float (.fin 5)) = false ∧
     conf {} demoProps (.int 100) = true := by decide
 
